@@ -90,6 +90,58 @@ def seqRun (o : Oracle Nat Nat) : Entry Nat Nat → List (Int × Option (Ev Nat 
   | e, (now, some ev) :: rest => let out := announce o e now ev; out :: seqRun o out.entry rest
   | e, (_, none) :: rest => ⟨e, none⟩ :: seqRun o e rest
 
+/-! ### followers (callbacks) -/
+
+def parseTs (j : Json) : R TsArg :=
+  match j with
+  | .null => pure .absent
+  | .str _ => pure .nonfinite
+  | _ => do return .ticks (← j.getInt?)
+
+def parseOutcome (j : Json) : R CbOutcome :=
+  match j with
+  | .str "ok" => pure .ok
+  | .str "typeError" => pure .typeError
+  | .str "other" => pure .other
+  | _ => throw "bad callback outcome"
+
+def parseNestedEv (j : Json) : R (Option (Ev Nat Nat)) := do
+  if j.isNull then return none
+  match (← arr j) with
+  | [.str "value", v, vd] => return some (.value (← v.getNat?) (← vd.getBool?))
+  | [.str "error", e] => return some (.error (← e.getNat?))
+  | _ => throw "bad nested event"
+
+structure Follower where
+  q : Nat
+  rows : List (S × CbOutcome × Option (Ev Nat Nat))
+
+def parseFollower (j : Json) : R Follower := do
+  let rows ← (← fldArr j "rows").mapM (fun r => do
+    match (← arr r) with
+    | [ve, oc, ne] => return (← parseVe ve, ← parseOutcome oc, ← parseNestedEv ne)
+    | _ => throw "bad follower row")
+  return ⟨← fldNat j "q", rows⟩
+
+def cbOf (o : Oracle Nat Nat) (clock : Int) (r : S) (f : Follower) : Cb Nat Nat :=
+  match f.rows.find? (fun row => row.1 == r) with
+  | some (_, oc, ne) => ⟨ne.map (fun ev => ⟨f.q, clock, resolve o ev, []⟩), oc⟩
+  | none => ⟨none, .ok⟩
+
+def mOutJson (n : Nat) (es : Nat → Entry Nat Nat) (msgs : List (Nat × Msg Nat Nat)) : Json :=
+  Json.mkObj [("msgs", jarr (msgs.map (fun m => jarr [jnat m.1, veJson m.2.ve, jint m.2.t]))),
+              ("caches", jarr ((List.range n).map (fun p => veJson (es p).ve))),
+              ("ts", jarr ((List.range n).map (fun p => jint (es p).timestamp)))]
+
+def seqmRun (o : Oracle Nat Nat) (caught : CbOutcome → Bool) (fs : List Follower) (n : Nat) :
+    (Nat → Entry Nat Nat) → List (Int × TsArg × Option (Ev Nat Nat)) → List Json
+  | _, [] => []
+  | es, (clock, ts, some ev) :: rest =>
+    let r := resolve o ev
+    let out := announceM o caught es 0 (effTimestamp ts clock) r (fs.map (cbOf o clock r))
+    mOutJson n out.es out.msgs :: seqmRun o caught fs n out.es rest
+  | es, (_, _, none) :: rest => mOutJson n es [] :: seqmRun o caught fs n es rest
+
 /-! ### concurrent runs -/
 
 def parseLabel (j : Json) : R (Tid × Option Label) := do
@@ -104,10 +156,10 @@ def parseLabel (j : Json) : R (Tid × Option Label) := do
   | [t, .str "send", c] => return (← t.getNat?, some (.send (← c.getNat?)))
   | _ => throw s!"bad label {j.compress}"
 
-def expand (p : Pid) : Option (Ev Nat Nat) × Bool → List (Op Nat Nat)
-  | (some ev, true) => [.accAcquire, .announce p ev, .accRelease]
+def expand (p : Pid) (ts : TsArg) : Option (Ev Nat Nat) × Bool → List (Op Nat Nat)
+  | (some ev, true) => [.accAcquire, .announce p ev .absent, .accRelease]
   | (none, true) => [.accAcquire, .accRelease]
-  | (some ev, false) => [.announce p ev]
+  | (some ev, false) => [.announce p ev ts]
   | (none, false) => []
 
 /-- perform the visible step thread `t` is waiting at (if it is waiting at one), then its invisible steps -/
@@ -147,6 +199,17 @@ def handle (j : Json) : R Json := do
       let ev ← parseOp o (← fld x "op")
       return ((← fldInt x "now"), ev.1))
     return Json.mkObj [("window", jint e.window), ("init", veJson e.ve), ("outs", jarr ((seqRun o e ops).map outJson))]
+  | "seqm" =>
+    let o ← parseOracle j
+    let entries ← (← fldArr j "entries").mapM parseEntry
+    let fs ← (← fldArr j "followers").mapM parseFollower
+    let ops ← (← fldArr j "ops").mapM (fun x => do
+      let ev ← parseOp o (← fld x "op")
+      return ((← fldInt x "now"), (← parseTs (← fld x "ts")), ev.1))
+    let dflt : Entry Nat Nat := ⟨0, none, 0, 0⟩
+    return Json.mkObj [("windows", jarr (entries.map (fun e => jint e.window))),
+      ("init", jarr (entries.map (fun e => veJson e.ve))),
+      ("outs", jarr (seqmRun o (catches Generated.C05.callbackCaught) fs entries.length (fun p => entries.getD p dflt) ops))]
   | "judge_seq" =>
     let init ← parseVe (← fld j "init")
     let tr ← (← fldArr j "trace").mapM parseObs
@@ -161,7 +224,10 @@ def handle (j : Json) : R Json := do
     let progs ← (← fldArr j "progs").mapM (fun th => do
       let ops ← (← arr th).mapM (fun x => do
         let p ← fldNat x "p"
-        return expand p (← parseOp o (← fld x "op")))
+        let ts ← match x.getObjVal? "ts" with
+          | .ok t => parseTs t
+          | .error _ => pure TsArg.absent
+        return expand p ts (← parseOp o (← fld x "op")))
       return ops.flatten)
     let labels ← (← fldArr j "labels").mapM parseLabel
     let dflt : Entry Nat Nat := ⟨0, none, 0, 0⟩
